@@ -5,7 +5,13 @@ EXTENDS Renumber
 
 \* deviation switches: FALSE = the code as it is since the fix: commits; TRUE = the repaired defect
 CONSTANTS DevChain,     \* TRUE = bookmark targets rewritten pair by pair (C10:bookmark.chain)
-          DevDang       \* TRUE = dangling references are left alone (C10:dangling.capture, .pageorder)
+          DevDang,      \* TRUE = dangling references are left alone (C10:dangling.capture, .pageorder)
+\* deviations present at HEAD (known findings): TRUE = the code as it is, FALSE = as the proposed fixes repair it
+          DevDup,       \* TRUE = a page listed twice takes part in the page-order pass twice (C10:pageorder.dupkids)
+          DevClash,     \* TRUE = pages re-keyed to <<number of slot, own generation>> (C10:pageorder.numclash)
+          DevBmDang     \* TRUE = a bookmark target naming no object is left alone (C10:bookmark.dangling.capture)
+
+DevRec == Dev(DevChain, DevDang, DevDup, DevClash, DevBmDang)
 
 VARIABLES before,   \* the document the call started from (with its declarative page sequence)
           start,    \* starting_id
@@ -21,7 +27,7 @@ rvars == <<before, start, s, pc, i, pg, srt, ord, live>>
 \* let mut page_order = self.page_iter()...; sort; needs_ordering
 Begin ==
     /\ pc = "begin"
-    /\ LET p == PageOrderOf(s) IN
+    /\ LET p == PageOrderOf(s, DevDup) IN
        /\ pg' = p /\ srt' = SortedPages(p)
        /\ pc' = IF NeedsOrdering(p) THEN "ppair" ELSE "dplan"
     /\ i' = 1 /\ live' = DOMAIN s.objs
@@ -30,14 +36,14 @@ Begin ==
 \* for (old, new) in pages.iter().zip(page_order) { remove/insert } (DevChain: ; renumber_bookmarks per pair)
 PagePair ==
     /\ pc = "ppair" /\ i <= Len(pg)
-    /\ s' = PagePairStep(s, pg[i], srt[i], DevChain)
+    /\ s' = PagePairStep(s, pg[i], srt[i], DevChain, DevClash)
     /\ i' = i + 1
     /\ UNCHANGED <<before, start, pc, pg, srt, ord, live>>
 
 \* remap_bookmarks(&replace); re-insert; traverse_objects(action); replace.clear()
 PageFinish ==
     /\ pc = "ppair" /\ i > Len(pg)
-    /\ s' = FinishPass(s, live, DevChain, DevDang)
+    /\ s' = FinishPass(s, live, DevChain, DevDang, DevBmDang)
     /\ pc' = "dplan"
     /\ UNCHANGED <<before, start, i, pg, srt, ord, live>>
 
@@ -61,7 +67,7 @@ DensePair ==
 \* remap_bookmarks(&replace); re-insert; traverse_objects(action); self.max_id = new_id.saturating_sub(1)
 DenseFinish ==
     /\ pc = "dpair" /\ i > Len(ord)
-    /\ s' = SetMaxId(FinishPass(s, live, DevChain, DevDang), start, Cardinality(live))
+    /\ s' = SetMaxId(FinishPass(s, live, DevChain, DevDang, DevBmDang), start, Cardinality(live))
     /\ pc' = "done"
     /\ UNCHANGED <<before, start, i, pg, srt, ord, live>>
 
